@@ -55,7 +55,14 @@ impl Universe {
         let mut seen = BTreeSet::new();
         for i in 0..ntids {
             loop {
+                // (in a third of the universes: ids that differ from the first one in a single bit, so that an id compared,
+                // hashed or stored by some of its bits only meets another id that agrees on those bits)
+                let near = (seed / 4) % 3 == 1 && i > 0 && i <= 8;
                 let v: u128 = match (seed.wrapping_add(i as u64)) % 4 {
+                    _ if near && tids.contains_key(&0) => {
+                        let base: TransactionId = tids[&0];
+                        u128::from(base) ^ (1u128 << [95u32, 64, 63, 32, 31, 0, 48, 80][(i as usize - 1) % 8])
+                    }
                     0 => i as u128, // small ids incl. 0
                     1 => (1u128 << 96) - 1 - i as u128, // top of the 96-bit range
                     _ => rng.gen::<u128>() & ((1u128 << 96) - 1),
@@ -266,11 +273,25 @@ impl<'u> Run<'u> {
             -f(self.base - i)
         }
     }
-    fn obs(&self) -> Value {
+    fn obs(&mut self) -> Value {
         let mut out = vec![];
+        let (local, transport) = (self.u.local, self.transport);
         for (i, t) in &self.u.tids {
-            if let Some(r) = self.agent.request_transaction(*t) {
-                out.push(json!([i, self.u.addr_token(r.peer_address())]));
+            // the read-only handle, then the mutable handle and the agent as seen through it: one transaction, one answer
+            let ro = self.agent.request_transaction(*t).map(|r| r.peer_address());
+            let rw = catch_unwind(AssertUnwindSafe(|| {
+                self.agent.mut_request_transaction(*t).map(|mut r| {
+                    let p = r.peer_address();
+                    let a = (r.agent().local_addr(), r.agent().transport());
+                    let b = (r.mut_agent().local_addr(), r.mut_agent().transport());
+                    (p, a == (local, transport) && b == (local, transport) && r.peer_address() == p)
+                })
+            }));
+            match (ro, rw) {
+                (Some(p), Ok(Some((q, true)))) if p == q => out.push(json!([i, self.u.addr_token(p)])),
+                (None, Ok(None)) => {}
+                (Some(_), _) => out.push(json!([i, "HANDLES-DISAGREE"])),
+                (None, _) => out.push(json!([i, "ONLY-MUTABLE-HANDLE"])),
             }
         }
         let mut val = vec![];
@@ -556,6 +577,16 @@ impl<'u> Run<'u> {
                 match Message::from_bytes(&bytes) {
                     Err(e) => json!({"k": "harness_parse_error", "e": format!("{e:?}")}),
                     Ok(msg) => {
+                        // an application may look at the message before the agent does (which peer's key seals it?): read-only
+                        // calls on the parsed message, made with every key of the universe, must not change what the agent decides
+                        if (self.seed + self.resp_cls_toggle) % 3 != 1 {
+                            let _ = catch_unwind(AssertUnwindSafe(|| {
+                                for k in self.u.keys.values() {
+                                    let _ = msg.validate_integrity(k);
+                                }
+                                let _ = msg.iter_attributes().count();
+                            }));
+                        }
                         let r = catch_unwind(AssertUnwindSafe(|| match self.agent.handle_stun(msg, from) {
                             HandleStunReply::Drop => json!({"k": "drop"}),
                             HandleStunReply::StunResponse(m) => {
@@ -615,12 +646,18 @@ impl<'u> Run<'u> {
                     }
                 }
             }
-            "set_remote" => {
-                self.agent.set_remote_credentials(self.u.keys[s["key"].as_str().unwrap()].clone());
-                json!({"k": "ok"})
-            }
-            "set_local" => {
-                self.agent.set_local_credentials(self.u.keys[s["key"].as_str().unwrap()].clone());
+            "set_remote" | "set_local" => {
+                let key = self.u.keys[s["key"].as_str().unwrap()].clone();
+                // directly, or (when a request is outstanding) through the agent reference of that request's mutable handle
+                let via = self.u.tids.values().copied().find(|t| self.seed % 2 == 0 && self.agent.request_transaction(*t).is_some());
+                match via.and_then(|t| self.agent.mut_request_transaction(t)) {
+                    Some(mut r) => {
+                        if a == "set_remote" { r.mut_agent().set_remote_credentials(key) } else { r.mut_agent().set_local_credentials(key) }
+                    }
+                    None => {
+                        if a == "set_remote" { self.agent.set_remote_credentials(key) } else { self.agent.set_local_credentials(key) }
+                    }
+                }
                 json!({"k": "ok"})
             }
             "server" => {
